@@ -19,6 +19,7 @@ import hashlib
 import json
 import os
 import re
+import signal
 import subprocess
 import sys
 import time
@@ -32,15 +33,53 @@ sys.path.insert(0, V + '/tools')
 from props import PROPS  # noqa: E402
 
 
+# Every child runs in a session of its own and is registered here, so that a child that outlives its time limit -
+# or this script being told to stop - is killed together with whatever it started (make's coqc jobs, the
+# harness's hostile-script children) instead of being left behind to hold the machine.
+CHILDREN = set()
+# time limit for one harness / extracted-driver / stress run: a hang in the code under test must surface as a
+# verdict of the check, and in the quick tier within minutes (set in main() from the tier)
+HARNESS_TIMEOUT = 600
+
+
+def spawn(cmd, **kw):
+    p = subprocess.Popen(cmd, stdout=subprocess.PIPE, stderr=subprocess.STDOUT, start_new_session=True, **kw)
+    CHILDREN.add(p)
+    return p
+
+
+def kill_tree(p):
+    try:
+        os.killpg(p.pid, signal.SIGKILL)
+    except OSError:
+        pass
+
+
+def reap(p, timeout):
+    """(exit code, output) of a spawned child; 124 and the output so far if it had to be killed"""
+    try:
+        o, _ = p.communicate(timeout=max(1, timeout))
+        rc = p.returncode
+    except subprocess.TimeoutExpired:
+        kill_tree(p)
+        o, _ = p.communicate()
+        o = (o or b'') + ('\n[timeout after %ds]' % timeout).encode()
+        rc = 124
+    kill_tree(p)   # stragglers of a child that has exited
+    CHILDREN.discard(p)
+    return rc, (o or b'').decode('utf-8', 'replace')
+
+
+def _on_signal(sig, _frame):
+    for p in list(CHILDREN):
+        kill_tree(p)
+    sys.exit(128 + sig)
+
+
 def run(cmd, cwd=None, timeout=1800, env=None):
     t0 = time.time()
-    try:
-        p = subprocess.run(cmd, cwd=cwd, env=env, stdout=subprocess.PIPE, stderr=subprocess.STDOUT,
-                           timeout=timeout, shell=isinstance(cmd, str))
-        return p.returncode, p.stdout.decode('utf-8', 'replace'), time.time() - t0
-    except subprocess.TimeoutExpired as e:
-        out = (e.stdout or b'').decode('utf-8', 'replace')
-        return 124, out + '\n[timeout after %ss]' % timeout, time.time() - t0
+    rc, out = reap(spawn(cmd, cwd=cwd, env=env, shell=isinstance(cmd, str)), timeout)
+    return rc, out, time.time() - t0
 
 
 def newest(paths):
@@ -241,37 +280,30 @@ def build_driver(log):
     return out if rc != 0 else None
 
 
-def run_driver_sharded(cf, timeout=3000, maxshards=16):
+def run_driver_sharded(cf, timeout=None, maxshards=16):
     """Run the extracted-model driver over a cases file, split round-robin into parallel shards. Every case
     line is independent except for the Zobrist key tables (`zkeys` lines) and comment headers, which every
     shard gets."""
+    timeout = timeout or HARNESS_TIMEOUT
     lines = open(cf).read().split('\n')
     head = [l for l in lines if l.startswith('#') or l.startswith('zkeys ')]
     body = [l for l in lines if l and not (l.startswith('#') or l.startswith('zkeys '))]
     k = max(1, min(maxshards, len(body) // 40))
     if k == 1:
-        p = subprocess.run([BUILD + '/vdriver', cf], stdout=subprocess.PIPE, stderr=subprocess.STDOUT, timeout=timeout)
-        return p.returncode, p.stdout.decode('utf-8', 'replace')
+        return reap(spawn([BUILD + '/vdriver', cf]), timeout)
     procs = []
     for i in range(k):
         sf = '%s.shard%d' % (cf, i)
         with open(sf, 'w') as f:
             f.write('\n'.join(head + body[i::k]) + '\n')
-        procs.append((sf, subprocess.Popen([BUILD + '/vdriver', sf], stdout=subprocess.PIPE, stderr=subprocess.STDOUT)))
+        procs.append((sf, spawn([BUILD + '/vdriver', sf])))
     t0 = time.time()
     rc, outs, n = 0, [], 0
     nz = len([l for l in head if l.startswith('zkeys ')])
     for sf, p in procs:
-        try:
-            o, _ = p.communicate(timeout=max(1, timeout - (time.time() - t0)))
-        except subprocess.TimeoutExpired:
-            p.kill()
-            o, _ = p.communicate()
-            o += b'\n[timeout]'
-            rc = 124
-        o = o.decode('utf-8', 'replace')
-        if p.returncode not in (0, None) and rc == 0:
-            rc = p.returncode
+        prc, o = reap(p, timeout - (time.time() - t0))
+        if prc != 0 and rc == 0:
+            rc = prc
         kept = []
         for l in o.split('\n'):
             m = re.match(r'DONE n=(\d+)', l)
@@ -289,7 +321,7 @@ def run_driver_sharded(cf, timeout=3000, maxshards=16):
 def run_cases(prop, gen_name, seed, tier, log, tag=''):
     os.makedirs(BUILD + '/cases', exist_ok=True)
     cf = '%s/cases/%s%s.txt' % (BUILD, gen_name, tag)
-    rc, out, dt = run([BUILD + '/vharness', 'cases', gen_name, str(seed), tier, cf], timeout=3000, cwd=BUILD)
+    rc, out, dt = run([BUILD + '/vharness', 'cases', gen_name, str(seed), tier, cf], timeout=HARNESS_TIMEOUT, cwd=BUILD)
     log.setdefault('cases_s', 0)
     log['cases_s'] = round(log['cases_s'] + dt, 1)
     if rc != 0:
@@ -299,7 +331,7 @@ def run_cases(prop, gen_name, seed, tier, log, tag=''):
             return res, None
         return None, 'harness cases failed: ' + out[-2000:]
     t0 = time.time()
-    rc, dout = run_driver_sharded(cf, timeout=3000)
+    rc, dout = run_driver_sharded(cf)
     dt = time.time() - t0
     log.setdefault('driver_s', 0)
     log['driver_s'] = round(log['driver_s'] + dt, 1)
@@ -385,6 +417,10 @@ def main():
     a = ap.parse_args()
     prop = a.prop
     tier = a.tier if a.tier in ('quick', 'thorough') else 'quick'
+    global HARNESS_TIMEOUT
+    HARNESS_TIMEOUT = 600 if tier == 'quick' else 3000
+    for sig in (signal.SIGTERM, signal.SIGHUP, signal.SIGINT):
+        signal.signal(sig, _on_signal)
     seed = int(os.environ.get('VERIF_SEED', '1') or 1)
     cfg = PROPS[prop]
     t0 = time.time()
@@ -481,7 +517,7 @@ def main():
         tracef = '%s/cases/trace-%s.txt' % (BUILD, sname)
         if os.path.exists(tracef):
             os.remove(tracef)
-        rc, sout, dt = run([BUILD + '/vharness-race', 'stress', sname, str(seed), tier], timeout=3000, cwd=BUILD,
+        rc, sout, dt = run([BUILD + '/vharness-race', 'stress', sname, str(seed), tier], timeout=HARNESS_TIMEOUT, cwd=BUILD,
                            env=dict(os.environ, GORACE='halt_on_error=0 exitcode=66', VERIF_TRACE_FILE=tracef))
         log['stress_s'] = round(log.get('stress_s', 0) + dt, 1)
         sres = {'n': 0, 'mismatch': [], 'specviol': [], 'classes': {}, 'file': '', 'harness_out': sout[-400:]}
